@@ -2,9 +2,9 @@ package guards
 
 import (
 	"fmt"
-	"regexp"
 	"go/token"
 	"go/types"
+	"regexp"
 	"sort"
 	"strings"
 
